@@ -5,9 +5,9 @@ Local Open Scope N_scope.
 
 Section Proofs.
 Variable decode : list N -> option msg.
-Variable method_kind : list N -> N.
-Variable req_ok : list N -> bool.
-Variable service : list N -> list N -> option sres.
+Variable method_kind : N -> list N -> N.
+Variable req_ok : N -> list N -> bool.
+Variable service : N -> list N -> list N -> option sres.
 
 Notation dispatch := (dispatch method_kind req_ok service).
 Notation body_phase := (body_phase decode method_kind req_ok service).
@@ -123,14 +123,14 @@ Proof.
   unfold Model.dispatch. intros Hd H.
   destruct (m_type m =? REQUEST).
   - unfold handle_request in H.
-    destruct (method_kind (m_name m) =? 3); [inversion H; subst; exact Hd|].
-    destruct (method_kind (m_name m) =? 0).
+    destruct (method_kind (svc r) (m_name m) =? 3); [inversion H; subst; exact Hd|].
+    destruct (method_kind (svc r) (m_name m) =? 0).
     + destruct (send_msg _ _ _ _) as [[r1 e1] b1] eqn:E. inversion H; subst.
       eapply send_msg_dead; eauto.
-    + destruct (negb (req_ok (m_buf m))); [inversion H; subst; exact Hd|].
+    + destruct (negb (req_ok (svc r) (m_buf m))); [inversion H; subst; exact Hd|].
       destruct (supersede cl true r (m_id m)) as [r1 evs1] eqn:E1.
       apply supersede_dead in E1; [|exact Hd].
-      destruct (service (m_name m) (m_buf m)) as [res|].
+      destruct (service (svc r) (m_name m) (m_buf m)) as [res|].
       * destruct (request_complete _ _ _ _ _) as [r3 evs3] eqn:E3. inversion H; subst.
         eapply request_complete_dead; [|exact E3]. exact E1.
       * inversion H; subst. exact E1.
@@ -138,12 +138,12 @@ Proof.
     + unfold handle_response in H. destruct (lookup _ _); inversion H; subst; exact Hd.
     + destruct (m_type m =? STREAM_REQUEST); [|inversion H; subst; exact Hd].
       unfold handle_stream_request in H.
-      destruct (method_kind (m_name m) =? 3); [inversion H; subst; exact Hd|].
-      destruct (method_kind (m_name m) =? 0).
+      destruct (method_kind (svc r) (m_name m) =? 3); [inversion H; subst; exact Hd|].
+      destruct (method_kind (svc r) (m_name m) =? 0).
       * destruct (send_msg _ _ _ _) as [[r1 e1] b1] eqn:E. inversion H; subst.
         eapply send_msg_dead; eauto.
-      * destruct (negb (method_kind (m_name m) =? 2)); [inversion H; subst; exact Hd|].
-        destruct (negb (req_ok (m_buf m))); inversion H; subst; exact Hd.
+      * destruct (negb (method_kind (svc r) (m_name m) =? 2)); [inversion H; subst; exact Hd|].
+        destruct (negb (req_ok (svc r) (m_buf m))); inversion H; subst; exact Hd.
 Qed.
 
 Lemma body_phase_resume f r avail f' r' rest evs :
@@ -337,7 +337,7 @@ Proof.
     destruct (run f1 r1 ops) as [[f2 r2] evs2] eqn:Er.
     inversion H; subst f2 r2 evs; clear H.
     unfold stream. cbn [flat_map]. fold (stream ops).
-    destruct o as [bs ok|st nm rq ok|q res ok]; cbn in Ho; subst ok; cbn [Model.step op_bytes] in Es |- *.
+    destruct o as [bs ok|st nm rq ok|q res ok|k]; cbn in Ho; try subst ok; cbn [Model.step op_bytes] in Es |- *.
     + apply feed_resume in Es; auto. destruct Es as (D1 & F1 & R1).
       apply IH in Er; auto. destruct Er as [F2 R2]. split; [exact F2|].
       intros fut. rewrite <- app_assoc, R1, R2.
@@ -353,6 +353,8 @@ Proof.
       apply IH in Er; auto. destruct Er as [F2 R2]. split; [exact F2|].
       intros fut. cbn [app]. rewrite R2.
       unfold dispatched in *. rewrite flat_map_app, E1. reflexivity.
+    + inversion Es; subst f1 r1 evs1; clear Es.
+      apply IH in Er; auto.
 Qed.
 
 Lemma resume_end f : FI f -> resume f [] = [].
